@@ -225,8 +225,10 @@ class DesignElab(Elaboratable):
                         kw = {"nonexclusive": bool(b.nx)}
                         if b.nx:
                             if b.i:
+                                # user combiner, deliberately NOT the identity for a single active call and sensitive to
+                                # every active call: parity of the active calls whose argument is 0
                                 kw["combiner"] = lambda mm, args, runs: {
-                                    "a": Cat(args[j].a & runs[j] for j in range(len(args))).any()}
+                                    "a": Cat(~args[j].a & runs[j] for j in range(len(args))).xor()}
                         kw["single_caller"] = bool(b.sc)
                         if b.val:
                             kw["validate_arguments"] = lambda a: a == 1
@@ -651,7 +653,7 @@ class Oracle:
             act = [s for s in info.sites if s.target == m and active[s.id]]
             if b.i and runs[m]:
                 args = [int(I[s.arg_in]) if s.arg == "in" else int(s.arg or 0) for s in act]
-                exp = args[0] if not b.nx else int(any(args))
+                exp = args[0] if not b.nx else sum(1 - a for a in args) % 2
                 if (b.nx or len(act) == 1) and O[f"din:{m}"] != exp:
                     V.append(("C05", f"arg.routing: {m}.data_in={O[f'din:{m}']} expected {exp} from sites {[s.id for s in act]}"))
                 if len(act) > 1:
